@@ -5,6 +5,8 @@
 //	family 1  grammar product: request lines x header subsets with hostile value menus
 //	family 2  single / double edit neighbourhoods of seed requests
 //	family 3  response helpers fed with every attacker string of <= 3 symbols
+//	family 5  request-header parsers reached through ctx helpers x repetition grammars: every
+//	          sequence of 0-3 tokens / look-alikes / quoted forms / empty elements x separators (repetition.go)
 //	family 4  application shapes (root/prefix/parameter Use, groups, mounts, parameter kinds ...)
 //	          x routing configurations x degenerate request targets x methods (shapes.go)
 //	balloon   inputs suspected of huge allocations, each on a fresh app in a child under
@@ -64,16 +66,16 @@ var (
 	flagCaseBase  = flag.Int64("casebase", 0, "case number reached before -fromshard (internal)")
 	flagBalloon   = flag.Bool("balloon", false, "run the balloon family (internal, child under ulimit)")
 	flagAfter     = flag.Int64("after", 0, "skip every case numbered <= this (internal)")
-	flagFamilies  = flag.String("families", "", "development aid: run only these families (f1,f2,f3,f4,balloon); the run is then reported as not exhaustive")
+	flagFamilies  = flag.String("families", "", "development aid: run only these families (f1,f2,f3,f4,f5,balloon); the run is then reported as not exhaustive")
 )
 
 // ---------------------------------------------------------------------------
 // shards
 
 type shard struct {
-	Fam string // f1 | f1t | f2s | f2p | f3 | f4
-	Cfg int // f4: index into cfg4s(tier)
-	A   int // f1: request line; f1t: handler line; f2*: seed; f3: helper; f4: index into f4ShapeSets(tier)
+	Fam string // f1 | f1t | f2s | f2p | f3 | f4 | f5
+	Cfg int // f4: index into cfg4s(tier); f5: index into cfgsAll
+	A   int // f1: request line; f1t: handler line; f2*: seed; f3: helper; f4: index into f4ShapeSets(tier); f5: index into units5()
 	B   int // f1t: first slot; f2p: first position
 }
 
@@ -154,6 +156,11 @@ func buildAllShards(quick bool) []shard {
 			}
 		}
 	}
+	for ui := range units5() {
+		for c := range cfgsAll {
+			out = append(out, shard{"f5", c, ui, 0})
+		}
+	}
 	c4 := cfg4s(quick)
 	for si, set := range f4ShapeSets(quick) {
 		for c := range c4 {
@@ -219,6 +226,9 @@ func (w *worker) runShard(s shard, quick bool) {
 		for qi := range w.qs {
 			w.runF3(s.A, qi)
 		}
+	case "f5":
+		u := units5()[s.A]
+		w.runF5Shard(&u)
 	}
 }
 
@@ -582,6 +592,8 @@ func caseClass(m map[string]any) string {
 		return fmt.Sprintf("f2 seed=%v", m["seed"])
 	case "f3-helpers":
 		return fmt.Sprintf("f3 helper=%v", m["helper"])
+	case "f5-repetition":
+		return fmt.Sprintf("f5 parser=%v", m["parser"])
 	case "f4-shapes":
 		return fmt.Sprintf("f4 shape-kind=%v target=%v", m["shape_kind"], m["target_class"])
 	}
@@ -601,8 +613,10 @@ func ctxOf(m map[string]any) string {
 	return "default"
 }
 
-func partPath(i int) string {
-	return filepath.Join(core.VerifDir, ".build", "parts", "C07", fmt.Sprintf("part%d.json", i))
+// partPath: where worker i of THIS coordinator writes its partial (core.SpawnWorkers uses the same
+// per-process directory), its progress mapping (.prog) and its checkpoints (.ckpt).
+func partPath(r *core.Run, i int) string {
+	return filepath.Join(r.PartsDir(), fmt.Sprintf("part%d.json", i))
 }
 
 func readProgress(path string) (caseNo int64, shardPos int, reason byte, ok bool) {
@@ -630,7 +644,7 @@ func readCheckpoint(path string) *checkpoint {
 
 // recoverWorker handles a worker that died: attribute, confirm, record, resume.
 func recoverWorker(r *core.Run, idx, n int) {
-	out := partPath(idx)
+	out := partPath(r, idx)
 	env := []string{"GOMAXPROCS=1"}
 	var skips []string
 	fromShard, caseBase := 0, int64(0)
@@ -697,7 +711,7 @@ func recoverWorker(r *core.Run, idx, n int) {
 
 // runBalloonParent drives the balloon child under `ulimit -v 4000000`, resuming after each death.
 func runBalloonParent(r *core.Run) {
-	out := filepath.Join(core.VerifDir, ".build", "parts", "C07", "balloon.json")
+	out := filepath.Join(r.PartsDir(), "balloon.json")
 	_ = os.MkdirAll(filepath.Dir(out), 0o755)
 	after := int64(0)
 	notRepro := 0
@@ -779,8 +793,8 @@ func main() {
 		n = 2
 	}
 	for i := 0; i < n; i++ {
-		_ = os.Remove(partPath(i) + ".prog")
-		_ = os.Remove(partPath(i) + ".ckpt")
+		_ = os.Remove(partPath(r, i) + ".prog")
+		_ = os.Remove(partPath(r, i) + ".ckpt")
 	}
 	t0 := time.Now()
 	var extra []string
@@ -803,8 +817,8 @@ func main() {
 	}
 	wg.Wait()
 	for i := 0; i < n; i++ {
-		_ = os.Remove(partPath(i) + ".prog")
-		_ = os.Remove(partPath(i) + ".ckpt")
+		_ = os.Remove(partPath(r, i) + ".prog")
+		_ = os.Remove(partPath(r, i) + ".ckpt")
 	}
 	t1 := time.Now()
 	if famOn("balloon") {
@@ -869,7 +883,7 @@ func main() {
 			samples = append(samples, m)
 		}
 	}
-	if *flagFamilies == "" && len(r.P.Caps) == 0 && len(r.P.Violations) == 0 && (r.P.Counters["clean_request_reached_handler"] == 0 || r.P.Counters["f3_cases"] == 0 || r.P.Counters["f2_cases"] == 0 || r.P.Counters["f4_cases"] == 0 || r.P.Counters["f4_degenerate_target_reached_handler"] == 0) {
+	if *flagFamilies == "" && len(r.P.Caps) == 0 && len(r.P.Violations) == 0 && (r.P.Counters["clean_request_reached_handler"] == 0 || r.P.Counters["f3_cases"] == 0 || r.P.Counters["f2_cases"] == 0 || r.P.Counters["f4_cases"] == 0 || r.P.Counters["f5_cases"] == 0 || r.P.Counters["f4_degenerate_target_reached_handler"] == 0) {
 		core.Fatal("vacuous run: no clean request reached the /all handler, or a family did not run")
 	}
 	quick := r.Quick()
@@ -896,17 +910,17 @@ func main() {
 	rule := fmt.Sprintf("wire level, one in-memory connection per case, %d configs %v. "+
 		"F1 = %d request lines (9 methods x %d targets x 4 versions) x every set of <=2 header letters from %d slots / %d letters (each slot has its own hostile value menu; Content-Type/-Encoding/framing letters also shape the body)%s. "+
 		"F2 = %d seeds x every single edit (delete, replace, insert of %d bytes at every offset) and every pair of edits for the %d shortest seed(s)%s. "+
-		"%s"+
+		"%s%s"+
 		"F3 = %d helpers x %d attacker strings (all strings of <=3 symbols over {a,CR,LF,CRLF,NUL,\",;,comma,:,SP,e-acute} + 4 classics). "+
 		"Balloon = %d inputs (msgpack array headers in fiber_flash, 1-3 layers of gzip over zeros) each on a fresh app in a child under ulimit -v 4000000. "+
-		"Non-trivial = differs from the benign baseline (F1: any header letter or hostile request-line letter; F2: any edit; F3: q not in a*; F4: any target other than a plain route base; balloon: all) AND its request bytes were not already produced by another case of the same enumeration shard (hash set per shard; duplicates across shards of the pair neighbourhood are not removed). "+
+		"Non-trivial = differs from the benign baseline (F1: any header letter or hostile request-line letter; F2: any edit; F3: q not in a*; F4: any target other than a plain route base; F5: any value with at least one element; balloon: all) AND its request bytes were not already produced by another case of the same enumeration shard (hash set per shard; duplicates across shards of the pair neighbourhood are not removed). "+
 		"Oracles: no panic (escaped or inside an accessor probe); process survives and ServeConn returns within %.0f CPU-seconds (balloon inputs: %.0f), a death/hang is confirmed by re-running the case alone in a fresh process; MemStats.TotalAlloc delta <= %d + %d*len(request) (re-measured on a fresh app before reporting); reply parses under the strict parser, response count bounded by the header blocks sent (exactly 1 for body-less well-formed requests); "+
 		"F3: header names subset of the helper's expected set, each once, expected status and body (helpers marked name-like are not judged for q containing CR/LF/NUL: outside the documented domain of a token position); "+
 		"status: definitely malformed requests (empty method, non-numeric/negative/conflicting Content-Length, header line without colon, NUL in a header value) -> 4xx; well-formed request with method outside the configured set -> 501, inside -> not 501; never 5xx other than 501/505; everything else unspecified.",
 		len(cfgs), cfgNames, len(allLines()), len(targetsL), len(slots), nLetters,
 		map[bool]string{true: " (quick tier: the 2-letter sets are left out for the request lines refused at the request line itself - empty method or version JUNK)",
 			false: fmt.Sprintf(" plus every set of 3 letters for the %d request lines that reach a handler", len(handlerLines()))}[quick],
-		len(seeds), len(editBytes), pairSeedCount(quick), map[bool]string{true: " (quick tier: pairs on the configs default and customctx only)", false: ""}[quick], f4Rule(quick), len(helpers), len(attackStrings()), len(balloonCases(quick)), cpuCapSeconds, cpuCapBalloonSeconds, budgetA, budgetB)
+		len(seeds), len(editBytes), pairSeedCount(quick), map[bool]string{true: " (quick tier: pairs on the configs default and customctx only)", false: ""}[quick], f4Rule(quick), f5Rule(), len(helpers), len(attackStrings()), len(balloonCases(quick)), cpuCapSeconds, cpuCapBalloonSeconds, budgetA, budgetB)
 	ev := core.Evidence{
 		Level:       "exploration",
 		Exhaustive:  true,
@@ -917,7 +931,7 @@ func main() {
 			"rule":                rule,
 			"bounds": map[string]any{"max_header_letters": maxHdr, "request_lines": len(allLines()), "header_slots": len(slots), "header_letters": nLetters,
 				"seeds": len(seeds), "pair_seeds": pairSeedCount(quick), "edit_bytes": len(editBytes), "helpers": helperNames, "attack_strings": len(attackStrings()),
-				"balloon_inputs": len(balloonCases(quick)), "f4_shapes": len(shapes), "f4_shape_sets": len(f4ShapeSets(quick)), "f4_routing_configs": len(cfg4s(quick)), "f4_targets": len(targets4), "f4_methods": methods4(quick), "configs": cfgNames, "cpu_cap_seconds": cpuCapSeconds, "cpu_cap_seconds_balloon": cpuCapBalloonSeconds, "workers": n},
+				"balloon_inputs": len(balloonCases(quick)), "f5_parsers": len(parsers5), "f5_units": len(units5()), "f5_configs": len(cfgsAll), "f4_shapes": len(shapes), "f4_shape_sets": len(f4ShapeSets(quick)), "f4_routing_configs": len(cfg4s(quick)), "f4_targets": len(targets4), "f4_methods": methods4(quick), "configs": cfgNames, "cpu_cap_seconds": cpuCapSeconds, "cpu_cap_seconds_balloon": cpuCapBalloonSeconds, "workers": n},
 			"alloc_budget": map[string]any{"A_bytes": budgetA, "B_bytes_per_request_byte": budgetB,
 				"max_fraction_used_by_cases_within_budget": maxFrac, "that_case_alloc_bytes": maxAlloc, "that_case_request_bytes": maxLen, "that_case": json.RawMessage(orNull(maxDesc))},
 			"unspecified_skipped": r.P.Counters["unspecified_skipped"],
